@@ -13,6 +13,20 @@ COMMON_NOTE = ("Trusted: Lean 4.33.0 kernel; axioms per theorem as printed by #p
 
 # property id -> dict(level, text, technique, note, design_ref)
 CLAIMED = {
+    "C16": dict(
+        level="proof",
+        text="Lean state-machine model of ECMA-262 promise jobs: promise records with reaction lists, the resolving functions' alreadyResolved "
+             "latch, PerformPromiseThen, NewPromiseReactionJob, NewPromiseResolveThenableJob (incl. self-resolution TypeError), PromiseResolve, "
+             "Await with async-function segments, and the host's FIFO queue. Theorems: drain_add / drain_chunks / drain_idle / "
+             "drain_split_complete (ANY way of splitting the host's job loop into run_jobs calls whose turns add up to at least the number "
+             "needed ends in the same state: same trace, same promise states), enqueue_appends / stepQueue_takes_head (jobs are only ever "
+             "appended and only the head runs: FIFO), settle_settled (a settled promise never changes and never schedules again), "
+             "resolve_latched (resolving functions act once). The model is the executable spec: generated promise programs are rendered to "
+             "JavaScript and the engine's trace must equal the model's, in 7 scheduling modes (drained once; a custom executor running 1/2/5 jobs "
+             "per run_jobs call; evaluate_async_with_budget 1/7/100).",
+        technique="Lean 4 proofs over a promise/job-queue state machine (scheduling independence, FIFO, settle-once) + model-predicted vs real traces of generated promise programs under 7 scheduling modes",
+        note="exactly-once per reaction is checked by the traces, not proved; async generators, combinators and user thenables only scheduling-independence (engine-only).",
+    ),
     "C18": dict(
         level="proof",
         text="Lean model of the JSON grammar over UTF-16 code units (white space, literals, the number grammar, strings with every escape, arrays, "
